@@ -255,6 +255,57 @@ def run(ctx):
                     ctx.where(B), key='PROV:%s::set_total_fragments:no-transfer' % FM)
 
 
+    # ---------------- clause 8: sequence ids stay distinct, content never decides ---------------------------------------
+    ctx.rule('C09.8-key-lossless', 'the conversions that turn the wire sequence id into the key of the pending map (SequenceId::new / From<u64> / value and whatever the assembler entry points '
+             'call in edp_client::types) contain no narrowing cast: two different ids never share an entry', floor=2)
+    from ..families import check_casts
+    roots = [FA + '::start_fragment', FA + '::add_fragment']
+    scope = sorted(q for q in ctx.F.bodies if q.startswith('edp_client::types::') and ('SequenceId' in q) and ctx.F.bodies[q]['kind'] in ('Fn', 'AssocFn'))
+    scope += sorted(q for q in P.reachable_from([r for r in roots if r in ctx.F.bodies]) if q.startswith('edp_client::types::') and q not in scope)
+    ctx.anchor(len(scope) >= 2, 'SequenceId conversion functions')
+    for q in scope:
+        QB = P.B(q)
+        before = len(ctx.records)
+        n_c = check_casts(ctx, QB, 'C09.8-key-lossless', include_float=False)
+        if len(ctx.records) == before:
+            ctx.ok('C09.8-key-lossless', q, 'no narrowing cast', ctx.where(QB))
+    ctx.rule('C09.8-content-blind', 'whether a fragment is stored and counted depends on its ids and on what was received before, never on its bytes: '
+             'no branch of the assembler\'s add/start functions tests the payload (an empty piece is a legal fragment)', floor=3)
+    for q, data_args in ((FM + '::add_fragment', ('data',)), (FA + '::add_fragment', ('payload',)), (FA + '::start_fragment', ('payload',))):
+        QB = P.B(q)
+        if QB is None:
+            continue
+        dl = [i for i in range(1, QB.b['argc'] + 1) if QB.local_name(i) in data_args]
+        if not ctx.anchor(bool(dl), q + ':payload parameter'):
+            continue
+        d = QB.derived_locals(dl) | set(dl)
+        offending = None
+        for bb in sorted(QB.live_blocks()):
+            t = QB.blocks[bb]['t']
+            if t['k'] != 'switch':
+                continue
+            src = None
+            if t['dty'] == 'bool':
+                sb = QB.switch_bool_edges(bb)
+                if sb and sb[0][0] == 'call':
+                    src = [l for a in sb[0][2]['args'] for l in QB._op_locals(a)]
+                elif sb and sb[0][0] == 'bin':
+                    src = QB._op_locals(sb[0][2]['a']) + QB._op_locals(sb[0][2]['b'])
+            else:
+                src = QB._op_locals(t['d'])
+            # the payload itself or something computed from it (a reference to it, its len / is_empty, its first byte);
+            # `self` is excluded: storing the payload into a slot makes self depend on it, and tests of self are about what was received before
+            dd = d - {1}
+            if src and any(l in dd for l in src):
+                offending = bb
+        inst = q.rsplit('::', 2)[-2] + '::' + q.rsplit('::', 1)[-1]
+        if offending is None:
+            ctx.ok('C09.8-content-blind', inst, 'no branch condition reads the payload', ctx.where(QB))
+        else:
+            ctx.bad('C09.8-content-blind', inst, 'a branch in %s tests the payload bytes: a fragment can be dropped or treated differently because of its content (e.g. an empty piece), so the sequence never completes' % inst,
+                    ctx.where(QB, offending), key='DOM:%s:branches-on-payload' % q)
+
+
 def _rv_places(rv):
     k = rv['k']
     out = []
